@@ -695,6 +695,32 @@ void runTB(vh::Args& a, vh::Stats& st) {
     };
     sweep(true);
     if (found == 0) { vh::recordViolation("tb", kase, "updateTB returned true but no placement of the root's material is found"); return; }
+    // Interlude, as between two searches of the engine: updateTB() is asked about roots the resident table cannot serve
+    // (another pawnless <=4-man class with too little time to regenerate; a root with pawns / too many men, at most three
+    // times).  As long as the resident table still answers, its 5 MiB must stay reserved.
+    {
+        static const char* other[] = {"8/8/8/4k3/8/8/8/RK6 b - - 0 1", "8/8/3q4/4k3/8/8/8/1K6 w - - 0 1", "8/8/8/4k3/8/8/B7/1KN5 w - - 0 1", "8/8/2r5/4k3/8/8/Q7/1K6 w - - 0 1",
+                                      "8/8/8/4k3/8/4P3/8/1K6 w - - 0 1", "r3k3/8/8/8/8/8/8/1KQQ2R1 w - - 0 1"};
+        int nCalls = 1 + rng.pick(3);
+        for (int i = 0; i < nCalls; i++) {
+            std::string of = other[rng.pick(6)];
+            Position op = TextIO::readFEN(of);
+            int sc0;
+            if (tt.probeDTM(op, 0, sc0)) continue; // covered by the resident table (sub-class): not an interlude
+            RelaxedShared<S64> small((S64)rng.pick(3000));
+            tt.updateTB(op, small);
+        }
+        int sc1;
+        bool stillAnswers = tt.probeDTM(root, 0, sc1);
+        const U64 usedNow = VerifTTAccess::usedSize(tt);
+        if (stillAnswers && usedNow > N - tbBytes / 16) {
+            vh::recordViolation("tb", kase, "after updateTB() calls for other roots the resident table still answers probeDTM but usedSize = " + std::to_string(usedNow) +
+                                " of " + std::to_string(N) + " entries: its 5 MiB are no longer reserved");
+            return;
+        }
+        if (!stillAnswers) { st.count("tb: resident table dropped by the interlude (nothing to protect)"); vh::clearCurrent(); return; }
+        st.cls("tb: updateTB for other roots while a table is resident");
+    }
     // hammer: all top-bit patterns x low patterns, then random keys; every bucket must stay below usedSize
     U64 mask = VerifTTAccess::usedSizeMask(tt);
     U64 lo[7] = {0, 3, 4, mask, mask + 1, mask ? mask - 1 : 0, 0x0000ffffffffffffULL};
